@@ -8,6 +8,7 @@ package schema
 //
 // What is recorded while a log is active (VerifC19Start .. VerifC19Stop):
 //   copy         StreamReader.Copy(n) with n >= 2, with the chain of callers outside this package
+//   merge        MergeStreamReaders over n >= 2 readers, with callers
 //   close        an outermost StreamReader.Close (one not called from inside this package), with callers
 //   child_new    copyStreamReaders created a parent with n children
 //   child_close  a child of a copy parent was closed (first close only)
@@ -118,6 +119,17 @@ func verifC19Copy(n int) {
 	_, origin := verifC19Callers()
 	verifC19.mu.Lock()
 	verifC19.ev = append(verifC19.ev, VerifC19Event{Kind: "copy", N: n, Origin: origin})
+	verifC19.mu.Unlock()
+}
+
+// verifC19Merge records a MergeStreamReaders call over n >= 2 readers, with the callers outside this package.
+func verifC19Merge(n int) {
+	if atomic.LoadInt32(&verifC19.on) == 0 {
+		return
+	}
+	_, origin := verifC19Callers()
+	verifC19.mu.Lock()
+	verifC19.ev = append(verifC19.ev, VerifC19Event{Kind: "merge", N: n, Origin: origin})
 	verifC19.mu.Unlock()
 }
 
